@@ -487,7 +487,7 @@ impl Property for P {
     fn cases(tier: Tier) -> u64 {
         match tier {
             Tier::Quick => 25_000,
-            Tier::Thorough => 200_000,
+            Tier::Thorough => 1_000_000,
         }
     }
     fn worker_init() {
